@@ -86,6 +86,9 @@ func c08Run(c *fw.Ctx) {
 		{"sealed-under-cookie-key", func() string { return other }, false},
 		{"genuine-token-deadline-expired", func() string { return seal(mk(past, future)) }, false},
 		{"genuine-lifetime-expired", func() string { return seal(mk(future, past)) }, false},
+		// expired only just (whole-second deadlines; the virtual clock stands half a second past a second)
+		{"genuine-token-deadline-expired-1s-ago", func() string { return seal(mk(harness.At(-time.Second), future)) }, false},
+		{"genuine-lifetime-expired-4s-ago", func() string { return seal(mk(future, harness.At(-4*time.Second))) }, false},
 	}
 
 	drive(c, "product", -1, func(x *explore.Exec, owned bool) {
@@ -247,6 +250,75 @@ func c08Run(c *fw.Ctx) {
 			c.Res.Count("positive_acted_with_credentials", 1)
 		}
 	})
+	c08Unconfigured(c)
+}
+
+// c08Unconfigured: a deployment that sets neither CLIENT_PROXY_ID nor CLIENT_PROXY_SECRET. Either the
+// configuration is refused at start-up, or — if an authenticator does come up — a caller that presents
+// no credentials (or empty ones) must still be refused by every token endpoint.
+func c08Unconfigured(c *fw.Ctx) {
+	drive(c, "unconfigured-proxy-client", -1, func(x *explore.Exec, owned bool) {
+		ep := []string{"redeem", "refresh", "profile", "validate"}[x.Choose("endpoint", 4)]
+		presented := []string{"nothing", "empty-id-and-secret", "empty-id-only"}[x.Choose("credentials", 3)]
+		if !owned {
+			return
+		}
+		e, err := harness.NewAuthEnv(harness.AuthOpts{EmailDomains: []string{"corp.test"}, RootDomains: []string{"sso.test"}, NoProxyClient: true})
+		if err != nil {
+			c.Res.Count("configuration_without_proxy_client_refused_at_start_up", 1)
+			c.Res.Outcome("unconfigured|refused-at-start-up")
+			return
+		}
+		defer e.Close()
+		calls := 0
+		e.IdP.Answer = func(cl *harness.IdPCall) harness.AuthAnswer {
+			calls++
+			switch cl.Endpoint {
+			case "token":
+				return ans(200, `{"access_token":"new-access-token-SECRET","expires_in":3600}`)
+			case "userinfo":
+				return ans(200, `{"email":"vip.user@corp.test","email_verified":true,"groups":["eng"]}`)
+			}
+			return ans(200, `{"active":true}`)
+		}
+		future := harness.At(time.Hour)
+		code, _ := sessions.MarshalSession(&sessions.SessionState{ProviderSlug: e.Slug, AccessToken: "session-access-token-SECRET", RefreshToken: "session-refresh-token-SECRET", Email: "vip.user@corp.test",
+			RefreshDeadline: future, LifetimeDeadline: future, ValidDeadline: future}, e.CodeCipher)
+		q, body, hdr := url.Values{}, url.Values{}, http.Header{"X-Access-Token": {"session-access-token-SECRET"}}
+		switch presented {
+		case "empty-id-and-secret":
+			q.Set("client_id", "")
+			body.Set("client_id", "")
+			body.Set("client_secret", "")
+			hdr.Set("X-Client-Secret", "")
+		case "empty-id-only":
+			q.Set("client_id", "")
+		}
+		method := "GET"
+		switch ep {
+		case "redeem":
+			method = "POST"
+			body.Set("code", code)
+		case "refresh":
+			method = "POST"
+			body.Set("refresh_token", "session-refresh-token-SECRET")
+		case "profile":
+			q.Set("email", "vip.user@corp.test")
+			q.Set("groups", "eng")
+		}
+		var b []byte
+		if method == "POST" {
+			b = []byte(body.Encode())
+			hdr.Set("Content-Type", "application/x-www-form-urlencoded")
+		}
+		resp := e.Do(harness.NewRequest(method, "/"+e.Slug+"/"+ep+"?"+q.Encode(), harness.AuthHost, hdr, b))
+		c.Res.Outcome(fmt.Sprintf("unconfigured|%s|%s|%d|%d", ep, presented, resp.Status, calls))
+		d := map[string]interface{}{"endpoint": ep, "credentials_presented": presented, "status": resp.Status, "identity_provider_calls": calls, "body": truncate(resp.Body, 200)}
+		if resp.Status < 400 || calls > 0 || strings.Contains(resp.Body, "SECRET") || strings.Contains(resp.Body, "vip.user") {
+			c.Res.Violate(fw.Violation{Property: "C08", Key: "C08/unconfigured-proxy-client/acts-for-anonymous-caller/" + ep, Scenario: "unconfigured-proxy-client", Choices: x.Choices(), Detail: d,
+				What: fmt.Sprintf("an authenticator started without proxy client credentials answered %s with %d for a caller presenting %s (identity-provider calls: %d)", ep, resp.Status, presented, calls)})
+		}
+	})
 }
 
 func swapCase(s string) string {
@@ -267,9 +339,10 @@ func init() {
 		ID:    "C08",
 		Level: "exploration",
 		Rule: "full product on the unmodified NewAuthenticatorMux: endpoint {redeem, refresh, profile, validate} x method {GET, POST, PUT, HEAD} x client_id placement {absent, query right/wrong, body right/wrong, body wrong + query right, body right + query wrong, duplicated wrong-then-right, empty} " +
-			"x secret placement {absent, body right/wrong, X-Client-Secret right/wrong, query right, prefix of the secret, secret plus a suffix, empty, body wrong + header right} x code (redeem only) {absent, garbage, genuine, bit-flipped, genuine with a line break inserted / a trailing newline / padding appended, sealed under the cookie key, genuine with expired token deadline, genuine with expired lifetime}; " +
+			"x secret placement {absent, body right/wrong, X-Client-Secret right/wrong, query right, prefix of the secret, secret plus a suffix, empty, body wrong + header right} x code (redeem only) {absent, garbage, genuine, bit-flipped, genuine with a line break inserted / a trailing newline / padding appended, sealed under the cookie key, genuine with expired token deadline, genuine with expired lifetime, expired only 1 s / 4 s ago}; " +
 			"oracle: a request that nowhere presents the right id AND the right secret => status >= 400, none of the session's token/email strings in body or headers, no identity-provider call; /redeem 200 => genuine unexpired code and the JSON is exactly that session's email and tokens; " +
 			"thorough adds methods {DELETE, PATCH, OPTIONS}, body encodings {multipart/form-data, urlencoded bytes labelled application/json}, path forms {trailing slash, default-provider path without the slug, doubled slash}, ids {upper-cased, right plus a space}, secrets {case-swapped, right plus a space, empty body + right header, wrong in query and header, wrong then right in the body}; " +
+			"(unconfigured-proxy-client) a deployment with CLIENT_PROXY_ID/SECRET unset: refused at start-up, or every token endpoint refuses a caller presenting nothing / empty values; " +
 			"distinct_nontrivial = distinct (endpoint, method, placements, code, encoding, path form, status, IdP calls)",
 		Assumptions:    []string{"IdP scripted and healthy"},
 		QuickBudget:    4 * time.Minute,
